@@ -57,7 +57,7 @@ Definition ipayload := N.   (* the SerializedValue of an Introspection, opaque *
 Inductive ihalt :=
 | NeedChoice (len : nat)    (* the choice list is exhausted; len = conn_ids.len() at that point *)
 | NoSerial                  (* SerialMap::insert does not terminate: all 2^32 serials occupied *)
-| NoFuel.                   (* the work loop's fuel ran out (unreachable: IntroDbProofs.ifuel_enough) *)
+| NoFuel.                   (* the work loop's fuel ran out (unreachable: IntroDbProofs.introdb_fuel) *)
 Inductive ioutcome (A : Type) := IDone (a : A) | IFail (a : A) | IPanic (site : N) | IHalt (h : ihalt).
 Arguments IDone {A} a. Arguments IFail {A} a. Arguments IPanic {A} site. Arguments IHalt {A} h.
 
